@@ -81,6 +81,9 @@ func gen(g *kernel.Rng, seed uint64, tier string) *kernel.Plan {
 	case 2:
 		// the canonical publish/play flow, each endpoint one sequential script
 		p.Variant = "flow"
+		// after objectEncoding=3 a server may answer with AMF3 command messages
+		// (type 17: a zero byte, then the AMF0 body)
+		p.Cfg["amf3res"] = int64(g.Pick(3, 1))
 		noise := func(e int) {
 			for k := g.Range(0, 3); k > 0; k-- {
 				op := genPacketOp(g, e, false)
@@ -271,6 +274,7 @@ func run(p *kernel.Plan) (res *kernel.Result) {
 	var brk int32
 	var sendFail string
 	lateUpdates := 0
+	amf3Responses := 0
 	s := rtmpx.NewSession(p, kernel.ModePlain, 300000)
 	idx := func(e *rtmpx.End) int {
 		if e == s.A {
@@ -345,12 +349,15 @@ func run(p *kernel.Plan) (res *kernel.Result) {
 			rr.step = s.S.Now()
 			if m != nil {
 				rr.msgType, rr.payload = byte(m.MessageType), m.Payload
+				if m.MessageType == rtmp.MessageTypeAMF3Command && len(m.Payload) > 0 && m.Payload[0] == 0 {
+					rr.payload = m.Payload[1:] // the AMF0 body of an AMF3 command message
+				}
 			}
 			if pkt != nil && !reflect.ValueOf(pkt).IsNil() {
 				rr.pktType = typeName(pkt)
 				rr.fields = fieldsOf(pkt)
 				if b, err := pkt.MarshalBinary(); err == nil {
-					rr.remEq = m != nil && bytes.Equal(b, m.Payload)
+					rr.remEq = m != nil && bytes.Equal(b, rr.payload)
 					rr.sizeOK = pkt.Size() == len(b)
 				}
 			}
@@ -424,7 +431,15 @@ func run(p *kernel.Plan) (res *kernel.Result) {
 		case *rtmp.CreateStreamResPacket:
 			rec.isResp, rec.respTid = true, float64(q.TransactionID)
 		}
-		rec.err = e.Proto.WritePacket(pkt, int(uint32(i)*7))
+		if p.Variant == "flow" && p.C("amf3res") != 0 && (op.K == "connectRes" || op.K == "createStreamRes") {
+			m := rtmp.NewStreamMessage(int(uint32(i) * 7))
+			m.MessageType = rtmp.MessageTypeAMF3Command
+			m.Payload = append([]byte{0}, b...)
+			rec.err = e.Proto.WriteMessage(m)
+			amf3Responses++
+		} else {
+			rec.err = e.Proto.WritePacket(pkt, int(uint32(i)*7))
+		}
 		rec.step1 = s.S.Now()
 		sd.sends = append(sd.sends, rec)
 		t.Evf("sent", "%s %s %dB err=%v", e.Name, kind, len(b), rec.err)
@@ -542,6 +557,7 @@ func run(p *kernel.Plan) (res *kernel.Result) {
 		res.Stat("sync_deadlocks_broken", 1)
 	}
 	res.Stat("packets_updated_in_place_after_Size", int64(lateUpdates))
+	res.Stat("flow_responses_sent_as_amf3_command", int64(amf3Responses))
 	for d := 0; d < 2; d++ {
 		if !evalDir(res, p, sides[d], sides[1-d], []string{"A>B", "B>A"}[d]) {
 			return res
